@@ -69,10 +69,10 @@ NOTE_COMMON = ('Trusts Verus/Z3, Kani/CBMC, the extractor and rewrite table R1-R
 PROPS = {
     'C01': {
         'level': 'proof',
-        'level_text': 'Runtime half only: every combinator of the runtime crate is proved (Verus, all inputs, all stacks, all child node types) to compute the PEG denotation `sem` taken from the property statement: leaves, optional, pair, array, choice 2..12, predicates, PUSH/PEEK/POP/DROP, check paths of sequences 2..12 and of all repetitions, full-input wrappers. Parse paths of sequences/repetitions and the _ALL/slice stack nodes are labelled Kani-bounded stand-ins. The generator translation (grammar -> type tree) is not covered.',
+        'level_text': 'Runtime half only: every combinator of the runtime crate is proved (Verus, all inputs, all stacks, all child node types) to compute the PEG denotation `sem` taken from the property statement: leaves, optional, pair, array, choice 2..12, predicates, PUSH/PEEK/POP/DROP, both paths of sequences 2..12 and of all repetitions (the parse paths after the mechanical rewrite R9 of core::array::from_fn(|_| ..) into the loop it stands for), full-input wrappers, the rule-kind macro arms. The _ALL/slice stack nodes are labelled bounded stand-ins. The generator translation (grammar -> type tree) is not covered.',
         'level_note': NOTE_COMMON + 'That `sem` coincides with pest where pest is defined is an assumption (textbook PEG semantics); generator half n/a.',
         'technique': TECH,
-        'verus': ['comb', 'choice', 'nodes', 'seqchk', 'repchk', 'wrappers', 'leaf', 'input'],
+        'verus': ['comb', 'choice', 'nodes', 'seqchk', 'seqpar', 'repchk', 'reppar', 'wrappers', 'leaf', 'input'],
         'expanded': True,
         'kani': K_PEG,
         'native': NB_PEG + [NB_PEG_D1, NB_GEN, NB_GEN_T, NB_GEN_SKIPTOK, NB_MATCHERS],
@@ -93,10 +93,10 @@ PROPS = {
     },
     'C03': {
         'level': 'proof',
-        'level_text': 'Both methods of the node trait carry the same postcondition over the same `sem`; Verus proves each extracted try_parse_partial_with and try_check_partial_with body against it (optional, pair, array, choice 2..12, predicates, stack nodes, leaves) and the check/parse full-input wrappers against one `full_ok` predicate, so verdict, offset and stack agree for all inputs. For sequences/repetitions the check path is proved and parse=check is a Kani-bounded stand-in. Identity of the error report is outside Verus (R1 erases the tracker) and is Kani-bounded.',
+        'level_text': 'Both methods of the node trait carry the same postcondition over the same `sem`; Verus proves each extracted try_parse_partial_with and try_check_partial_with body against it (optional, pair, array, choice 2..12, predicates, stack nodes, leaves) and the check/parse full-input wrappers against one `full_ok` predicate, so verdict, offset and stack agree for all inputs. For sequences 2..12 and all repetitions both paths are proved against the same denotation (units seqchk/seqpar, repchk/reppar). Identity of the error report is outside Verus (R1 erases the tracker) and is a bounded stand-in (nb_gen: identical error text on every enumerated input, also on Span/Position sub-inputs).',
         'level_note': NOTE_COMMON + 'Error-report identity is only bounded.',
         'technique': TECH,
-        'verus': ['comb', 'choice', 'nodes', 'seqchk', 'repchk', 'wrappers', 'leaf', 'rules'],
+        'verus': ['comb', 'choice', 'nodes', 'seqchk', 'seqpar', 'repchk', 'reppar', 'wrappers', 'leaf', 'rules'],
         'expanded': True,
         'kani': K_PEG,
         'native': NB_PEG + [NB_GEN, NB_GEN_T, NB_GEN_SKIPTOK, NB_GEN_SUB, NB_GEN_SUB_T],
@@ -115,10 +115,10 @@ PROPS = {
     },
     'C05': {
         'level': 'proof',
-        'level_text': 'Verus proves restore_on_none (verbatim): on None the stack contents equal those before the attempt, snapshots balanced; and every caller (Option, Choice2..12 both paths, repetition check loops) against a `sem` in which each alternative / iteration is evaluated on the state before the failed attempt; predicates restore on both outcomes. All relative to the Stack model, which Kani checks against the real pest::Stack for operation sequences up to a bound.',
-        'level_note': NOTE_COMMON + 'Parse loops of repetitions are Kani-bounded.',
+        'level_text': 'Verus proves restore_on_none (verbatim): on None the stack contents equal those before the attempt, snapshots balanced; and every caller (Option, Choice2..12 both paths, repetition check and parse loops) against a `sem` in which each alternative / iteration is evaluated on the state before the failed attempt; predicates restore on both outcomes. All relative to the Stack model, which Kani checks against the real pest::Stack for operation sequences up to a bound.',
+        'level_note': NOTE_COMMON + 'Relative to the Stack model (known finding D1 for nested snapshots).',
         'technique': TECH,
-        'verus': ['comb', 'choice', 'nodes', 'repchk'],
+        'verus': ['comb', 'choice', 'nodes', 'repchk', 'reppar'],
         'expanded': True,
         'kani': [],
         'native': [
@@ -145,10 +145,10 @@ PROPS = {
     },
     'C07': {
         'level': 'proof',
-        'level_text': 'Skip positions (claimed half): Verus proves for all SKIP, skip node types and element types that the check path of Seq2..12 skips exactly SKIP times before every element but the first and never after the last, that a repetition unit skips only for i > 0 and a skip before a failing iteration is undone, and that the full-input wrappers skip only in the non-atomic pair. Inheritance of atomicity (which SKIP/INHERITED the generator passes) is not applicable.',
-        'level_note': NOTE_COMMON + 'Parse paths Kani-bounded; generator half n/a.',
+        'level_text': 'Skip positions (claimed half): Verus proves for all SKIP, skip node types and element types that both paths of Seq2..12 skip exactly SKIP times before every element but the first and never after the last, that a repetition unit skips only for i > 0 and a skip before a failing iteration is undone, and that the full-input wrappers skip only in the non-atomic pair. Inheritance of atomicity (which SKIP/INHERITED the generator passes) is not applicable.',
+        'level_note': NOTE_COMMON + 'Generator half (which SKIP / INHERITED arguments are passed) is a bounded stand-in (nb_gen), not a contract.',
         'technique': TECH,
-        'verus': ['seqchk', 'repchk', 'wrappers', 'rules'],
+        'verus': ['seqchk', 'seqpar', 'repchk', 'reppar', 'wrappers', 'rules'],
         'expanded': True,
         'kani': K_PEG,
         'native': NB_PEG + [NB_GEN, NB_GEN_T, NB_GEN_SKIPTOK],
@@ -266,10 +266,10 @@ PROPS = {
     },
     'C17': {
         'level': 'proof',
-        'level_text': 'First-match-wins and leaf contents are Verus postconditions for all inputs and child types: the variant a Choice2..12 parse builds is the first alternative whose denotation matches (node_ok), CharRange/ANY expose the first scalar of the remaining input, Insens the consumed spelling, NEWLINE the alternative consumed (CRLF preferred), PEEK/POP/Skip/SkipChar the consumed span. Accessors are loop-free and proved complete by Kani over full-domain payloads for every arity 2..16 (13..16 instantiated with the exported choices!/seq! macros): exactly one _k() is Some and it is the stored value; the if_then/else_if/else_then, reference and consume chains run exactly closure k; get_matched/as_ref/get_all/into_matched/into_all return the fields in grammar order. Repetition iterators are a bounded stand-in; match_choices! is a generator proc macro (n/a).',
+        'level_text': 'First-match-wins and leaf contents are Verus postconditions for all inputs and child types: the variant a Choice2..12 parse builds is the first alternative whose denotation matches (node_ok), CharRange/ANY expose the first scalar of the remaining input, Insens the consumed spelling, NEWLINE the alternative consumed (CRLF preferred), PEEK/POP/Skip/SkipChar the consumed span. Accessors are loop-free and proved complete by Kani over full-domain payloads for every arity 2..16 (13..16 instantiated with the exported choices!/seq! macros): exactly one _k() is Some and it is the stored value; the if_then/else_if/else_then, reference and consume chains run exactly closure k; get_matched/as_ref/get_all/into_matched/into_all return the fields in grammar order. Sequence and repetition contents are Verus postconditions too (node_ok of Seq2..12: field k holds the node element k built where it matched; of RepeatMin/RepeatMinMax/AtomicRepeat: exactly the matched units, in order, each built where it matched). Repetition iterators (iter_matched etc.) are a bounded stand-in; match_choices! is a generator proc macro (n/a).',
         'level_note': NOTE_COMMON + 'Payload parametricity: accessor bodies never inspect the payload (checked with u8 payloads). match_choices! not covered.',
         'technique': TECH,
-        'verus': ['choice', 'leaf', 'nodes'],
+        'verus': ['choice', 'leaf', 'nodes', 'seqpar', 'reppar'],
         'expanded': True,
         'kani': [
             ('k_acc', 'acc_choice2', 'complete', 'q', 'choice accessors and helper chains, arity 2, all alternative indices x all u8 payloads (loop-free)'),
@@ -341,10 +341,10 @@ PROPS = {
     },
     'C19': {
         'level': 'proof',
-        'level_text': 'Verus proves for all MIN, MAX, SKIP and element types the check paths of RepeatMin / RepeatMinMax / AtomicRepeat and try_check_unit against the greedy bounded-repetition denotation (fails iff a unit fails before MIN, stops at MAX, state after the last matched unit so an unmatched skip is not consumed), and both paths of [T;N], (T1,T2), Option<T>. Parse paths of the repetitions are Kani-bounded on a MIN/MAX grid.',
+        'level_text': 'Verus proves for all MIN, MAX, SKIP and element types the check paths of RepeatMin / RepeatMinMax / AtomicRepeat and try_check_unit against the greedy bounded-repetition denotation (fails iff a unit fails before MIN, stops at MAX, state after the last matched unit so an unmatched skip is not consumed), and both paths of [T;N], (T1,T2), Option<T>. The parse paths of the repetitions and try_parse_unit are proved against the same denotation (unit reppar, after rewrite R9), with node_ok: the node holds exactly the matched units, count <= MAX and >= MIN (for MIN <= MAX; a RepeatMinMax with MIN > MAX stops at MAX like the unrolling pest performs for e{m,n}; the bounds in the statement are read for MIN <= MAX).',
         'level_note': NOTE_COMMON + 'Termination of the unbounded loop is not claimed (R6: a for over 0usize.. is assumed never to exhaust 2^64-1 iterations).',
         'technique': TECH,
-        'verus': ['comb', 'repchk'],
+        'verus': ['comb', 'repchk', 'reppar'],
         'expanded': False,
         'kani': K_PEG,
         'native': NB_PEG,
